@@ -29,6 +29,7 @@ def ops_job(op, elem, n, cap, fmask=0, alias=0, afl=0, maxcnt=2, size=None, std=
     if std != 'c++17': name += '-' + std.replace('+', 'p')
     if cap == 0 and op in ('pop_back', 'erase1'): return None   # no valid pre-state: these need size >= 1
     w = ['normal return'] if witness is None else witness
+    if op == 'shrink' and cap == n: w = [x for x in w if 'exceptional' not in x]   # inline: nothing can throw
     if op == 'at': w = ['out_of_range exit'] + (['normal return'] if cap > 0 else [])
     return Job(name, 'ops', defs, elems=[ELEM_IR[elem]], std=std, unwind=max(maxcap, maxm, 6) + 2, maxalloc=maxcap,
                minalloc=n + 1, expect_witness=w,
